@@ -15,6 +15,14 @@ Definition pack (c : Z) : Z :=
 
 Definition packable (c : Z) : Prop := exists k, 0 <= k /\ c = 250 * 2 ^ k.
 
+(** round_storage_bytes_to_gib: the number of whole GiB granted for a byte count (math.ceil(bytes / 1024 / 1024 / 1024)) *)
+Definition round_storage (b : Z) : Z := cdiv b gib.
+
+(** what a storage request may be granted at the least: a whole number of GiB covering it, never below the clouds' 10 GiB
+    minimum disk, except that a request for nothing may get nothing where that is allowed (pools: allow_zero = true) *)
+Definition storage_grant_ok (s : Z) (allow_zero : bool) (g : Z) : Prop :=
+  s <= g * gib /\ (10 <= g \/ (allow_zero = true /\ s = 0 /\ g = 0)).
+
 (** requested_storage_bytes_to_actual_storage_gib *)
 Definition storage_gib (max_gib s : Z) (allow_zero : bool) : option Z :=
   if s >? max_gib * gib then None
